@@ -14,7 +14,7 @@ EXTENDS Acts, Json, IOUtils
 Log == ndJsonDeserialize(IOEnv.TRACE)
 
 (* (LET-bound so that the file is parsed once while constants are processed) *)
-ModelLines == LET L == Log IN SelectSeq(L, LAMBDA r : r.ev = "model")
+ModelLines == LET L == Log IN SelectSeq(L, LAMBDA r : r.ev \in {"model", "submodel"})
 TraceModels == LET M == ModelLines IN [j \in DOMAIN M |-> M[j].model]
 TraceInputSets == LET M == ModelLines IN [j \in DOMAIN M |-> {M[j].inputs}]
 
@@ -34,23 +34,25 @@ SpecTasks(p) == { [k |-> t, st |-> p.ts[t].st, prev |-> p.ts[t].prev,
                                                             /\ p.ts[u].seq < p.ts[t].seq }),
                    err |-> p.ts[t].err, emitOff |-> p.ts[t].emitOff,
                    catchDone |-> p.ts[t].catchDone,
-                   start |-> p.ts[t].start, tdone |-> p.ts[t].tdone] : t \in DOMAIN p.ts }
+                   start |-> p.ts[t].start, tdone |-> p.ts[t].tdone,
+                   noauto |-> p.ts[t].noauto] : t \in DOMAIN p.ts }
 LogTasks(lp) == { [k |-> r.k, st |-> r.st, prev |-> r.prev,
                    seq |-> Cardinality({ u \in ToSet(lp.tasks) : u.prev = r.prev /\ u.seq < r.seq }),
                    err |-> r.err,
                    emitOff |-> r.emitOff, catchDone |-> r.catchDone,
-                   start |-> r.start, tdone |-> ToSet(r.tdone)] : r \in ToSet(lp.tasks) }
+                   start |-> r.start, tdone |-> ToSet(r.tdone),
+                   noauto |-> IF "noauto" \in DOMAIN r THEN r.noauto ELSE FALSE] : r \in ToSet(lp.tasks) }
 
 SpecProc(pid, P, Q) ==
   IF P[pid].st = "absent" \/ P[pid].ts = <<>> THEN [cached |-> FALSE]
   ELSE [cached |-> TRUE, ps |-> P[pid].ps, perr |-> P[pid].perr,
         tasks |-> SpecTasks(P[pid]), q |-> { x[2] : x \in { y \in Q : y[1] = pid } }]
 LogProc(lp) ==
-  IF ~lp.cached THEN [cached |-> FALSE]
+  IF ~lp.cached \/ lp.tasks = <<>> THEN [cached |-> FALSE]   \* (started, not launched: id taken, nothing else)
   ELSE [cached |-> TRUE, ps |-> lp.ps, perr |-> lp.perr, tasks |-> LogTasks(lp), q |-> ToSet(lp.q)]
 
-SpecJobs(J) == { [kind |-> j.kind, pid |-> j.pid] : j \in J }
-LogJobs(js) == { [kind |-> j.kind, pid |-> j.pid] : j \in ToSet(js) }
+SpecJobs(J) == { [kind |-> j.kind, pid |-> j.pid, t |-> IF j.kind = "return" THEN j.t ELSE NoKey] : j \in J }
+LogJobs(js) == { [kind |-> j.kind, pid |-> j.pid, t |-> IF "t" \in DOMAIN j THEN j.t ELSE NoKey] : j \in ToSet(js) }
 
 SpecOut(out) == [i \in DOMAIN out |-> [what |-> out[i].what, pid |-> out[i].pid, t |-> out[i].t,
                                         type |-> out[i].type, state |-> out[i].state]]
@@ -63,7 +65,7 @@ LogRes(r) == IF r.res = "ok" THEN "ok" ELSE "err"
 (* there is exactly one candidate successor per line)                         *)
 Same(what, got, want) ==
   IF got = want THEN TRUE
-  ELSE PrintT(<<"MISMATCH", what, "line", l, "n", Log[l].n, "spec", got, "impl", want>>) /\ FALSE
+  ELSE PrintT(<<"MISMATCH", what, "line", l, "n", IF "n" \in DOMAIN Log[l] THEN Log[l].n ELSE 0, "spec", got, "impl", want>>) /\ FALSE
 
 (* a process that is not in the cache (evicted, or removed after its terminal *)
 (* event) has no live image to compare; the specification's is unchanged       *)
@@ -112,6 +114,12 @@ TraceModel ==
   /\ lastOut' = <<>> /\ lastRes' = "-" /\ lastAct' = NoAct
   /\ now' = 0
 
+TraceSub ==      \* another model of the bundle (deployed next to the main one, which follows)
+  /\ l <= Len(Log) /\ Log[l].ev = "submodel"
+  /\ l' = l + 1 /\ sc' = sc + 1
+  /\ TreeOK(sc + 1, Log[l])
+  /\ UNCHANGED vars
+
 TraceSkip ==     \* lines that carry no action
   /\ l <= Len(Log) /\ Log[l].ev \in {"end", "note"}
   /\ l' = l + 1 /\ sc' = sc
@@ -119,9 +127,10 @@ TraceSkip ==     \* lines that carry no action
 
 TraceStartCall ==
   /\ IsStep("StartCall")
-  /\ LET r == Log[l] IN
-     /\ r.res = "ok"
-     /\ StartCall(r.pid, sc, r.inputs)
+  /\ LET r == Log[l]
+         mi == sc - (IF "mo" \in DOMAIN r THEN r.mo ELSE 0) IN
+     /\ StartCall(r.pid, mi, r.inputs) \/ StartDup(r.pid, mi, r.inputs)
+     /\ Same("result", lastRes', LogRes(r))
      /\ PostOK(r)
 
 TraceLaunch ==
@@ -141,6 +150,14 @@ TraceAct ==
   /\ LET r == Log[l] IN
      /\ \/ Act(r.pid, r.t, r.kind, [ecode |-> r.opts.ecode, to |-> r.opts.to])
         \/ ActGone(r.pid, r.t, r.kind, [ecode |-> r.opts.ecode, to |-> r.opts.to])
+     /\ Same("result", lastRes', LogRes(r))
+     /\ PostOK(r)
+
+TraceReturn ==
+  /\ IsStep("Return")
+  /\ LET r == Log[l] IN
+     /\ \E j \in spawn : j.kind = "return" /\ j.pid = r.pid /\ j.t = r.t /\ Return(j)
+     /\ Same("return kind", lastAct'.kind, r.kind)
      /\ Same("result", lastRes', LogRes(r))
      /\ PostOK(r)
 
@@ -167,7 +184,7 @@ TraceInit ==
   /\ Init
   /\ l = 1 /\ sc = 0
 
-TraceNext == TraceModel \/ TraceSkip \/ TraceStartCall \/ TraceLaunch \/ TraceExec \/ TraceAct
+TraceNext == TraceModel \/ TraceSub \/ TraceSkip \/ TraceReturn \/ TraceStartCall \/ TraceLaunch \/ TraceExec \/ TraceAct
              \/ TraceTick \/ TraceAdvance \/ TraceEvict
 
 TraceSpec == TraceInit /\ [][TraceNext]_tvars
